@@ -10,11 +10,11 @@ cd "$wt"
 res=/tmp/confirm/$name.json
 PY="env PYTHONPATH=$wt PYTHONHASHSEED=0 PYTHONDONTWRITEBYTECODE=1 /venv/bin/python"
 timeout 300 $PY "$demo" > /tmp/confirm/$name.demo_clean.log 2>&1; d0=$?
-if ! git apply "$patch" 2>/tmp/confirm/$name.apply.err; then
+if ! git apply "$patch" 2>/tmp/confirm/$name.apply.err && ! { git apply --3way "$patch" 2>>/tmp/confirm/$name.apply.err && git reset -q; }; then
   echo "{\"name\":\"$name\",\"applies\":false}" > $res; cd /; git -C /repo worktree remove --force "$wt"; exit 3
 fi
 timeout 300 $PY "$demo" > /tmp/confirm/$name.demo_mut.log 2>&1; d1=$?
-$PY -m pytest -q -p no:cacheprovider --timeout=900 --continue-on-collection-errors --junitxml=/tmp/confirm/$name.junit.xml > /tmp/confirm/$name.pytest.log 2>&1
+$PY -m pytest tests performance -q -p no:cacheprovider --timeout=300 --continue-on-collection-errors --junitxml=/tmp/confirm/$name.junit.xml > /tmp/confirm/$name.pytest.log 2>&1
 /verif/tools_suite_compare.py /tmp/confirm/$name.junit.xml > /tmp/confirm/$name.cmp.txt 2>&1
 # re-run failing stable tests individually (flaky network tests)
 still=0
